@@ -216,6 +216,16 @@ func checkMain(args []string) int {
 	seed, _ := strconv.Atoi(os.Getenv("VERIF_SEED"))
 	t0 := time.Now()
 	units := p.Build(tier, seed)
+	if only := os.Getenv("GOSYM_ONLY"); only != "" {
+		// debugging aid: keep the units whose id contains the given text
+		var sel []Unit
+		for _, u := range units {
+			if strings.Contains(u.ID, only) {
+				sel = append(sel, u)
+			}
+		}
+		units = sel
+	}
 	if lim, _ := strconv.Atoi(os.Getenv("GOSYM_MAXUNITS")); lim > 0 && len(units) > lim {
 		units = units[:lim]
 	}
